@@ -469,20 +469,14 @@ theorem C06_writer_leaves {s : State} {w : Tid} {pc : WPc} (hc : s.cancelled = t
     exact ⟨[.wCancel w], _, by simp, by simp [Label.owner, healthy], run_cons (hsel s hc hw) (run_nil _),
       rfl, lookup_delT_self _ _⟩
   | init =>
-    cases hd : s.done with
-    | true =>
-      refine ⟨[.wCheck w], { s with writers := delT s.writers w }, by simp, by simp [Label.owner, healthy],
-        run_cons ?_ (run_nil _), rfl, lookup_delT_self _ _⟩
-      simp only [step?, stepG, Label.owner, stepWriter, hw, hd, if_true]
-    | false =>
-      have h1 : step? s (.wCheck w) = some { s with writers := setT s.writers w .select } := by
-        simp only [step?, stepG, Label.owner, stepWriter, hw, hd, Bool.false_eq_true, if_false]
-      have h2 := hsel { s with writers := setT s.writers w .select } hc
-        (by simp only [lookup_setT_self, hw]; rfl)
-      refine ⟨[.wCheck w, .wCancel w], _, by simp, by simp [Label.owner, healthy],
-        run_cons h1 (run_cons h2 (run_nil _)), ?_, ?_⟩
-      · simp only [delT_setT]
-      · simp only [delT_setT, lookup_delT_self]
+    have h1 : step? s (.wCheck w) = some { s with writers := setT s.writers w .select } := by
+      simp only [step?, stepG, Label.owner, stepWriter, hw]
+    have h2 := hsel { s with writers := setT s.writers w .select } hc
+      (by simp only [lookup_setT_self, hw]; rfl)
+    refine ⟨[.wCheck w, .wCancel w], _, by simp, by simp [Label.owner, healthy],
+      run_cons h1 (run_cons h2 (run_nil _)), ?_, ?_⟩
+    · simp only [delT_setT]
+    · simp only [delT_setT, lookup_delT_self]
   | «have» r =>
     have h1 : step? s (.wSend w true) =
         some { s with c2s := s.c2s ++ [.signal r], writers := setT s.writers w .select } := by
